@@ -525,6 +525,11 @@ fn c01(ix: &Ix, f: &mut Findings) {
                     }
                     continue;
                 }
+                // a call made by the hook panicked in it (deadlock report): the hook unwinds
+                HE::CallPanic => {
+                    open = None;
+                    continue;
+                }
                 HE::HEnter(u) => Some((i, u)),
                 HE::RunPoll(_) | HE::StopEnter(_) | HE::Ended => None,
                 _ => continue,
@@ -1181,7 +1186,8 @@ fn c06(ix: &Ix, f: &mut Findings) {
                             if !sum.cancelled {
                                 f.o("C06.cleanup_once");
                                 let finished = x.stop_exit.len();
-                                let stop_panicked = x.stop_exit.iter().any(|s| s.1 == Out::Panic);
+                                // (a deadlock report raised by an ask inside on_stop unwinds it without a StopExit event)
+                                let stop_panicked = x.stop_exit.iter().any(|s| s.1 == Out::Panic) || sum.panic.is_some();
                                 if x.stop_enter.len() != 1 || (finished != 1 && !stop_panicked) {
                                     let later_kills = x.kills.iter().filter(|op| ix.ops[*op].s > *c).count();
                                     f.v(
@@ -1900,6 +1906,9 @@ fn c14_15(ix: &Ix, f: &mut Findings) {
     let n = ix.actors.len();
     let mut live: BTreeMap<u64, Edge> = BTreeMap::new();
     let mut answered: BTreeSet<u64> = BTreeSet::new(); // uid whose handler exited / panicked
+    // uid of a request whose envelope was destroyed without having been handled (witness note): that ask has failed, whether or
+    // not its caller has been polled since - it contributes nothing any more
+    let mut destroyed: BTreeSet<u64> = BTreeSet::new();
     let mut dead = vec![false; n];
     let mut tracked_calls = 0u64;
     // callers that at some point had two asks in flight at once (join!/select!): the graph keeps one edge per caller,
@@ -1917,7 +1926,7 @@ fn c14_15(ix: &Ix, f: &mut Findings) {
                 let tnow = e.t;
                 let classify = |ed: &Edge| -> Option<bool> {
                     // Some(true)=live, Some(false)=grey, None=gone
-                    if answered.contains(&ed.uid) {
+                    if answered.contains(&ed.uid) || destroyed.contains(&ed.uid) {
                         None
                     } else if dead[ed.callee] || ed.deadline.map(|d| d <= tnow).unwrap_or(false) {
                         Some(false)
@@ -2004,6 +2013,11 @@ fn c14_15(ix: &Ix, f: &mut Findings) {
             }
             K::HExit { uid, .. } | K::HPanic { uid, .. } => {
                 answered.insert(*uid);
+            }
+            K::Note(s) => {
+                if let Some(u) = s.strip_prefix("destroyed-unhandled uid ").and_then(|x| x.parse::<u64>().ok()) {
+                    destroyed.insert(u);
+                }
             }
             K::Ended { actor, sum } => {
                 dead[*actor] = true;
